@@ -99,6 +99,7 @@ structure Env where
   lastCh : Nat → Option Nat := fun _ => none
   prevCh : Nat → Option Nat := fun _ => none
   usedSeen : List Nat := []
+  seen : List Nat := []                     -- every challenge value a client ever received, newest first
   xban : Nat → Bool := fun _ => false       -- ghost: banned by an explicit `ban`/`banp` event (⊆ banned)
   xperm : Nat → Bool := fun _ => false      -- ghost: permanently banned by an explicit `banp` event (⊆ perm)
   bl : Nat → Bool := fun _ => false         -- IPManager.blacklist
@@ -153,7 +154,7 @@ def Env.track (g : Env) (now nc : Nat) (e : Event) (r : RespObs) : Env :=
   | .fc _ _ => g
   | .hs c _ _ resp =>
     match r with
-    | .ch n => { g with lastCh := upd g.lastCh c (some n), prevCh := upd g.prevCh c (g.lastCh c) }
+    | .ch n => { g with lastCh := upd g.lastCh c (some n), prevCh := upd g.prevCh c (g.lastCh c), seen := n :: g.seen }
     | .ok =>
       match g.resolve resp with
       | .hmac _ (some n) => { g with usedSeen := n :: g.usedSeen }
